@@ -80,4 +80,54 @@ theorem reachable_invC {jobs : List Job} {s : State} (h : Reachable jobs s) : In
   induction h with
   | init => exact invC_init jobs
   | step t _ hs ih => exact invC_step jobs _ _ t ih hs
+
+/-- the submitter reaches `done` only with an empty to-do list -/
+structure InvT (s : State) : Prop where
+  doneNil : s.sph = .done → s.todo = []
+
+theorem invT_stepS (s s' : State) (h : InvT s) (hs : stepS s = some s') : InvT s' := by
+  obtain ⟨flag, pending, lock, reported, submitted, sph, cur, todo, mon, old⟩ := s
+  obtain ⟨h1⟩ := h
+  simp only at h1
+  cases sph <;> simp only [stepS] at hs <;> (try split at hs) <;> simp at hs <;> (try subst hs)
+  all_goals (try (simp only [finishS]; split))
+  all_goals (constructor; simp_all)
+
+theorem reachable_invT {jobs : List Job} {s : State} (h : Reachable jobs s) : InvT s := by
+  induction h with
+  | init => unfold init; split <;> constructor <;> simp
+  | @step s0 s1 t hr hs ih =>
+    cases t with
+    | S => exact invT_stepS s0 s1 ih hs
+    | M =>
+      simp only [step] at hs
+      split at hs
+      · simp at hs
+      · rename_i s'' m' hm; simp at hs; subst hs
+        obtain ⟨_, _, c, _, e⟩ := invC_stepMon jobs s0 s'' .M s0.mon m' (reachable_invC hr) hm
+        exact ⟨by simp only; rw [c, e]; exact ih.doneNil⟩
+    | O k =>
+      simp only [step] at hs
+      split at hs
+      · simp at hs
+      · rename_i m hk
+        split at hs
+        · simp at hs
+        · rename_i s'' m' hm; simp at hs; subst hs
+          obtain ⟨_, _, c, _, e⟩ := invC_stepMon jobs s0 s'' (.O k) m m' (reachable_invC hr) hm
+          exact ⟨by simp only; rw [c, e]; exact ih.doneNil⟩
+
+theorem todo_nil_of_done {jobs : List Job} {s : State} (h : Reachable jobs s) (hd : s.sph = .done) : s.todo = [] :=
+  (reachable_invT h).doneNil hd
+
+theorem reachable_run (jobs : List Job) (sched : List Tid) :
+    ∀ s, Reachable jobs s → Reachable jobs (run s sched) := by
+  induction sched with
+  | nil => intro s h; exact h
+  | cons t ts ih =>
+    intro s h
+    simp only [run]
+    split
+    · rename_i s' hs; exact ih s' (Reachable.step t h hs)
+    · exact ih s h
 end RedunModel.MonitorLocked
